@@ -40,7 +40,7 @@ def T(*ks):
 
 RESERVED = set("""dot vzip vadd vsub vmul vscale vopp vzeros vones vsum mv vm transpose mm madd msub mscale outer mzeros unitv eye vget
 mget map fold_left length hd tl cons nil fst snd if then else let in match with end fun forall exists Type Prop Set nat list bool true
-false n0 n1 nadd nsub nmul ndiv nopp nltb nleb nofZ nabs mcols mT mmul vmm vdiv mdiv add_bias_row add_bias_mat roll1 set_row0 take_every vset_prefix vset_from gather_prod dq_appendleft dq_pop concat andb orb negb F H
+false n0 n1 nadd nsub nmul ndiv nopp nltb nleb nofZ nabs mcols mT mmul vmm vdiv mdiv add_bias_row add_bias_mat roll1 set_row0 take_every vset_prefix vset_from gather_prod dq_appendleft dq_pop concat vupd mupd mupd_row vslice_sum for_range skipn firstn nth seq Some None andb orb negb F H
 solve S O""".split())
 
 
@@ -100,6 +100,8 @@ class FnTr:
         self.noise_i = 0
         self.used_draws = frozenset()
         self.len_of = {}         # nat local -> the vector whose length it is
+        self.lb = {}             # loop variable -> Coq text of its lower bound
+        self.loop_state = set()  # arrays being filled by the enclosing for loop (in-place writes allowed)
         self.tmp = 0
 
     # ------------------------------------------------------------------ helpers
@@ -134,6 +136,44 @@ class FnTr:
         if m is None:
             raise Reject("%s: expression %s is not accepted" % (_where(e), type(e).__name__))
         return m(e)
+
+    def nat_expr(self, e, trunc_ok=False):
+        """An index / bound expression over naturals.  Python integers may go negative (and a negative index counts from the end);
+        a subtraction is accepted only where it provably stays >= 0 (loop variable minus its lower bound / a smaller literal), or in a
+        range() bound, where truncation at 0 gives the same (empty) range."""
+        if isinstance(e, ast.Constant) and isinstance(e.value, int) and not isinstance(e.value, bool) and e.value >= 0:
+            return Val(N, str(e.value))
+        if isinstance(e, ast.Name):
+            v = self.expr(e)
+            if v.kind == N:
+                return v
+            raise Reject("%s: %r is not an integer here" % (_where(e), e.id))
+        if isinstance(e, ast.BinOp) and isinstance(e.op, ast.Add):
+            a, b = self.nat_expr(e.left, trunc_ok), self.nat_expr(e.right, trunc_ok)
+            return Val(N, "%s + %s" % (a.p(), b.p()))
+        if isinstance(e, ast.BinOp) and isinstance(e.op, ast.Sub):
+            a, b = self.nat_expr(e.left, trunc_ok), self.nat_expr(e.right, trunc_ok)
+            ok = trunc_ok
+            if isinstance(e.left, ast.Name) and e.left.id in self.lb:
+                lo = self.lb[e.left.id]
+                ok = ok or lo == b.text or (lo.isdigit() and b.text.isdigit() and int(lo) >= int(b.text))
+            if not ok:
+                raise Reject("%s: integer subtraction %s may go negative" % (_where(e), ast.unparse(e)))
+            return Val(N, "%s - %s" % (a.p(), b.p()))
+        v = self.expr(e)
+        if v.kind == N:
+            return v
+        raise Reject("%s: integer expression %s is not accepted" % (_where(e), ast.unparse(e)))
+
+    def e_BoolOp(self, e):
+        vals = [self.expr(v) for v in e.values]
+        if any(v.kind != B for v in vals):
+            raise Reject("%s: boolean operator on non-boolean operands" % _where(e))
+        op = "andb" if isinstance(e.op, ast.And) else "orb"
+        t = vals[0].p()
+        for v in vals[1:]:
+            t = "(%s %s %s)" % (op, t, v.p())
+        return Val(B, t)
 
     def e_Constant(self, e):
         if e.value is None:
@@ -258,6 +298,17 @@ class FnTr:
         txt = ast.unparse(sl)
         if txt.startswith("(") and txt.endswith(")"):
             txt = txt[1:-1]
+        if self.fs.get("indexing"):       # element access by integer index (dataset loops)
+            if v.kind[0] == "V" and not isinstance(sl, (ast.Slice, ast.Tuple)):
+                i = self.nat_expr(sl)
+                return Val(S, "nth %s %s n0" % (i.p(), v.p()))
+            if v.kind == M and not isinstance(sl, (ast.Slice, ast.Tuple)):
+                i = self.nat_expr(sl)
+                return Val(V("flat"), "nth %s %s []" % (i.p(), v.p()))
+            if v.kind == V("col") and isinstance(sl, ast.Tuple) and len(sl.elts) == 2 and ast.unparse(sl.elts[1]) == ":" \
+                    and isinstance(sl.elts[0], ast.Slice) and sl.elts[0].step is None and sl.elts[0].upper is None and sl.elts[0].lower is not None:
+                i = self.nat_expr(sl.elts[0].lower)
+                return Val(V("col"), "skipn %s %s" % (i.p(), v.p()), False)
         if v.kind == M and txt == "(slice(1, None, None), slice(None, None, None))" or v.kind == M and txt == "1:, :":
             return Val(M, "tl %s" % v.p(), False)
         if v.kind == M and txt == "0, :":
@@ -289,6 +340,10 @@ class FnTr:
     def e_Compare(self, e):
         if ast.unparse(e) in self.u.get("bool_exprs", {}):       # a test on an opaque attribute, declared as a boolean field
             return self.field(self.u["bool_exprs"][ast.unparse(e)], e)
+        if len(e.ops) == 2:       # a < b < c
+            l = self.e_Compare(ast.Compare(left=e.left, ops=[e.ops[0]], comparators=[e.comparators[0]]))
+            r = self.e_Compare(ast.Compare(left=e.comparators[0], ops=[e.ops[1]], comparators=[e.comparators[1]]))
+            return Val(B, "(andb %s %s)" % (l.p(), r.p()))
         if len(e.ops) != 1:
             raise Reject("%s: chained comparison" % _where(e))
         op, right = e.ops[0], e.comparators[0]
@@ -318,6 +373,8 @@ class FnTr:
         for k in call.keywords:
             if k.arg is None or k.arg not in allowed:
                 raise Reject("%s: unexpected keyword argument %r" % (_where(call), k.arg))
+            if k.arg == "dtype" and ast.unparse(k.value) not in self.u.get("float_dtypes", ["global_dtype", "np.float64", "float"]):
+                raise Reject("%s: dtype=%s is not known to be float64 (the model computes over a field)" % (_where(call), ast.unparse(k.value)))
             out[k.arg] = k.value
         return out
 
@@ -473,6 +530,13 @@ class FnTr:
             raise Reject("%s: np.outer of kinds %s, %s" % (_where(e), x.kind, y.kind))
         if a == "multiply" and len(args) == 2 and not e.keywords:
             return self.arith(ast.Mult, self.expr(args[0]), self.expr(args[1]), e)
+        if a == "sum" and len(args) == 1 and not e.keywords and isinstance(args[0], ast.Subscript) and isinstance(args[0].slice, ast.Slice) \
+                and args[0].slice.step is None and args[0].slice.lower is not None and args[0].slice.upper is not None:
+            v = self.expr(args[0].value)
+            if v.kind[0] == "V":
+                lo, hi = self.nat_expr(args[0].slice.lower), self.nat_expr(args[0].slice.upper)
+                return Val(S, "vslice_sum %s %s %s" % (v.p(), lo.p(), hi.p()), True)
+            raise Reject("%s: np.sum of a slice of kind %s" % (_where(e), v.kind))
         if a == "roll" and len(args) == 2 and ast.unparse(args[1]) == "1":
             kws = self.kw(e, {"axis"})
             v = self.expr(args[0])
@@ -512,9 +576,14 @@ class FnTr:
                 if n.kind == N:
                     return Val(V("row"), "vzeros %s" % n.p(), True)
             if isinstance(sh, ast.Tuple) and len(sh.elts) == 2 and ast.unparse(sh.elts[1]) == "1":
-                n = self.expr(sh.elts[0])
+                n = self.nat_expr(sh.elts[0], trunc_ok=True) if self.fs.get("indexing") else self.expr(sh.elts[0])
                 if n.kind == N:
                     return Val(V("col"), "vzeros %s" % n.p(), True)
+            if isinstance(sh, ast.Tuple) and len(sh.elts) == 2 and isinstance(sh.elts[1], ast.Constant) and isinstance(sh.elts[1].value, int) \
+                    and sh.elts[1].value >= 2:
+                n = self.expr(sh.elts[0])
+                if n.kind == N:
+                    return Val(M, "mzeros %s %d" % (n.p(), sh.elts[1].value), True)
             v = self.expr(sh)
             if v.kind == N:
                 return Val(V("flat"), "vzeros %s" % v.p(), True)
@@ -639,10 +708,62 @@ class FnTr:
             raise Reject("%s: with statement" % _where(s))
         if isinstance(s, ast.If):
             return self.ifstmt(s, rest, k)
+        if isinstance(s, ast.Raise):
+            if rest:
+                raise Reject("%s: statements after raise" % _where(s))
+            if not self.fs.get("raises"):
+                raise Reject("%s: raise in a function not declared as raising" % _where(s))
+            return "None"
+        if isinstance(s, ast.For):
+            return self.forstmt(s, rest, k)
         raise Reject("%s: statement %s is not accepted" % (_where(s), type(s).__name__))
+
+    def forstmt(self, s, rest, k):
+        """for i in range(a, b): <element writes into arrays created before the loop>"""
+        if s.orelse or not isinstance(s.target, ast.Name) or not (isinstance(s.iter, ast.Call) and isinstance(s.iter.func, ast.Name)
+                                                                    and s.iter.func.id == "range" and len(s.iter.args) == 2 and not s.iter.keywords):
+            raise Reject("%s: only `for i in range(a, b):` is accepted" % _where(s))
+        a, b = self.nat_expr(s.iter.args[0], True), self.nat_expr(s.iter.args[1], True)
+        written = []
+        for st in s.body:
+            if not (isinstance(st, ast.Assign) and len(st.targets) == 1 and isinstance(st.targets[0], ast.Subscript)):
+                raise Reject("%s: a loop body may only contain element assignments" % _where(st))
+            t = st.targets[0]
+            while isinstance(t, ast.Subscript):
+                t = t.value
+            if not isinstance(t, ast.Name) or t.id not in self.env:
+                raise Reject("%s: loop writes into %s" % (_where(st), ast.unparse(t)))
+            if not self.env[t.id].fresh:
+                raise Reject("%s: the loop fills %r, which aliases another array" % (_where(st), t.id))
+            if t.id not in written:
+                written.append(t.id)
+        i = s.target.id
+        if i in self.env or i in RESERVED:
+            raise Reject("%s: loop variable %r shadows another name" % (_where(s), i))
+        saved = (dict(self.env), dict(self.lb), set(self.loop_state))
+        self.env[i] = Val(N, i)
+        self.lb[i] = a.text
+        self.loop_state |= set(written)
+        tup = written[0] if len(written) == 1 else "(" + ", ".join(written) + ")"
+        body = self.block(list(s.body), lambda: tup)
+        self.env, self.lb, self.loop_state = saved
+        for w in written:
+            self.env[w] = Val(self.env[w].kind, w, True)
+        pat = written[0] if len(written) == 1 else "'(" + ", ".join(written) + ")"
+        return "let %s := for_range %s %s (fun %s %s =>\n  %s) %s in\n  %s" % (
+            pat, a.p(), b.p(), ("'" + tup) if len(written) > 1 else tup, i, body, tup, self.block(rest, k))
 
     def subscript_assign(self, tg, val, node, k):
         """in-place writes into a FRESH local array: A[0] = row ; out[:n, :] = v ; out[n:, :] = v"""
+        if self.fs.get("indexing") and isinstance(tg.value, ast.Subscript) and isinstance(tg.value.value, ast.Name) and tg.value.value.id in self.env \
+                and self.env[tg.value.value.id].kind == M and val.kind == S:
+            name = tg.value.value.id
+            cur = self.env[name]
+            if not cur.fresh:
+                raise Reject("%s: in-place write into %r, which aliases another array" % (_where(node), name))
+            new = "mupd %s %s %s %s" % (self.nat_expr(tg.value.slice).p(), self.nat_expr(tg.slice).p(), val.p(), cur.p())
+            self.env[name] = Val(M, name, True)
+            return "let %s := %s in\n  %s" % (name, new, k())
         if not isinstance(tg.value, ast.Name) or tg.value.id not in self.env:
             raise Reject("%s: subscript assignment to %s" % (_where(node), ast.unparse(tg.value)))
         name = tg.value.id
@@ -651,17 +772,23 @@ class FnTr:
             raise Reject("%s: in-place write into %r, which aliases another array" % (_where(node), name))
         sl = tg.slice
         txt = ast.unparse(sl)
-        if cur.kind == M and txt == "0" and val.kind[0] == "V":
+        if self.fs.get("indexing") and isinstance(tg.value, ast.Name) and cur.kind[0] == "V" and not isinstance(sl, (ast.Slice, ast.Tuple)) and val.kind == S:
+            new = "vupd %s %s %s" % (self.nat_expr(sl).p(), val.p(), cur.p())
+        elif self.fs.get("indexing") and cur.kind == M and not isinstance(sl, (ast.Slice, ast.Tuple)) and val.kind[0] == "V" and txt != "0":
+            new = "mupd_row %s %s %s" % (self.nat_expr(sl).p(), val.p(), cur.p())
+        elif cur.kind == M and txt == "0" and val.kind[0] == "V":
             new = "set_row0 %s %s" % (cur.p(), val.p())
         elif cur.kind[0] == "V" and isinstance(sl, ast.Tuple) and len(sl.elts) == 2 and ast.unparse(sl.elts[1]) == ":" \
                 and isinstance(sl.elts[0], ast.Slice) and sl.elts[0].step is None and val.kind[0] == "V":
             lo, up = sl.elts[0].lower, sl.elts[0].upper
             if lo is None and up is not None:
                 n = self.expr(up)
-                if n.kind != N or n.text != "length %s" % val.p() and n.text != self.env.get(ast.unparse(up), Val(S, "")).text:
+                if n.kind == ("SHAPE",):
+                    pass
+                if n.kind != N and not (isinstance(up, ast.Subscript) and ast.unparse(up) == "%s.shape[0]" % ast.unparse(node.value)):
                     raise Reject("%s: prefix write of a length other than the written vector's" % _where(node))
-                if self.len_of.get(ast.unparse(up)) != val.text:
-                    raise Reject("%s: out[:n] = v is accepted only when n was defined as v.shape[0]" % _where(node))
+                if n.kind == N and n.text != "length %s" % val.p() and self.len_of.get(ast.unparse(up)) != val.text:
+                    raise Reject("%s: out[:n] = v is accepted only when n is v.shape[0]" % _where(node))
                 new = "vset_prefix %s %s" % (cur.p(), val.p())
             elif up is None and lo is not None:
                 n = self.expr(lo)
@@ -747,8 +874,9 @@ class FnTr:
             if w not in self.fields:
                 self.reads.add(w)
         if not parts:
-            return "tt"
-        return parts[0] if len(parts) == 1 else "(" + ", ".join(parts) + ")"
+            return "Some tt" if self.fs.get("raises") else "tt"
+        r = parts[0] if len(parts) == 1 else "(" + ", ".join(parts) + ")"
+        return ("Some (%s)" % r) if self.fs.get("raises") else r
 
     def ifstmt(self, s, rest, k):
         c = self.expr(s.test)
@@ -758,7 +886,7 @@ class FnTr:
             return self.block((list(s.body) if c.text == "true" else list(s.orelse)) + rest, k)
 
         def has_return(b):
-            return any(isinstance(n, ast.Return) for st in b for n in ast.walk(st))
+            return any(isinstance(n, (ast.Return, ast.Raise)) for st in b for n in ast.walk(st))
         snap = (dict(self.env), dict(self.fields), self.noise_i)
 
         ud0 = self.used_draws
@@ -768,8 +896,10 @@ class FnTr:
             return self.block(list(b), tail)
         if has_return(s.body) or has_return(s.orelse):
             # the rest of the block is the continuation of every branch that does not return
-            tb = branch(list(s.body) + ([] if has_return(s.body) and isinstance(s.body[-1], ast.Return) else rest), k)
-            eb = branch(list(s.orelse) + ([] if s.orelse and isinstance(s.orelse[-1], ast.Return) else rest), k)
+            def ends(b):
+                return bool(b) and (isinstance(b[-1], (ast.Return, ast.Raise)) or (isinstance(b[-1], ast.If) and b[-1].orelse and ends(b[-1].body) and ends(b[-1].orelse)))
+            tb = branch(list(s.body) + ([] if ends(s.body) else rest), k)
+            eb = branch(list(s.orelse) + ([] if ends(s.orelse) else rest), k)
             return "if %s then\n  %s\n  else\n  %s" % (c.text, tb, eb)
         # no return inside: merge the locals / fields rebound in either branch
         results, ud = {}, {}
@@ -990,7 +1120,8 @@ def emit_unit(repo, unit):
                 pass
         for d in unit.get("oracles", []):
             decl.append("(%s : %s)" % (d[0], d[1]))
-        out.append("Variables %s." % " ".join(decl))
+        if decl:
+            out.append("Variables %s." % " ".join(decl))
         out.append("")
         out.extend(d + "\n" for d in defs)
         out.append("End Gen.")
